@@ -78,7 +78,7 @@ impl Stats {
     /// # Ok::<(),error::CIError>(())
     /// ```
     pub fn ci(&self, confidence: Confidence, quantile: f64) -> CIResult<Interval<usize>> {
-        if quantile <= 0. || 1. <= quantile {
+        if !(quantile > 0. && quantile < 1.) {
             return Err(error::CIError::InvalidQuantile(quantile));
         }
 
